@@ -38,6 +38,8 @@ import Bmc.Proofs.GenOrch.TranslatedOk
 import Bmc.Proofs.GenOrch.WalkSDRs
 import Bmc.Proofs.GenOrch.RetrieveSDRRepository
 import Bmc.Proofs.ApiWrappers
+import Bmc.Proofs.EndToEnd.DecodeC07
+import Bmc.Proofs.EndToEnd.DecodeSetupC07
 #print axioms Bmc.Proofs.C17.deviceID_reuse
 #print axioms Bmc.Proofs.C17.chassis_reuse
 #print axioms Bmc.Proofs.C17.message_reuse
@@ -106,3 +108,29 @@ import Bmc.Proofs.ApiWrappers
 #print axioms Bmc.Proofs.ApiWrappers.api_other_senders
 #print axioms Bmc.Proofs.ApiWrappers.api_cmd_constructors
 #print axioms Bmc.Proofs.ApiWrappers.validate_response
+#print axioms Bmc.Proofs.EndToEnd.generated_GetDeviceIDRsp_decodes
+#print axioms Bmc.Proofs.EndToEnd.generated_AuthCapsRsp_decodes
+#print axioms Bmc.Proofs.EndToEnd.generated_CipherSuitesRsp_decodes
+#print axioms Bmc.Proofs.EndToEnd.generated_SetPrivRsp_decodes
+#print axioms Bmc.Proofs.EndToEnd.generated_GUIDRsp_decodes
+#print axioms Bmc.Proofs.EndToEnd.generated_SessionInfoRsp_decodes
+#print axioms Bmc.Proofs.EndToEnd.generated_ChassisStatusRsp_decodes
+#print axioms Bmc.Proofs.EndToEnd.generated_SDRRepoInfoRsp_decodes
+#print axioms Bmc.Proofs.EndToEnd.generated_ReserveRsp_decodes
+#print axioms Bmc.Proofs.EndToEnd.generated_GetSDRRsp_decodes
+#print axioms Bmc.Proofs.EndToEnd.generated_FullSensorRecord_decodes
+#print axioms Bmc.Proofs.EndToEnd.generated_PowerReadingRsp_decodes
+#print axioms Bmc.Proofs.EndToEnd.generated_SDRHeader_decodes
+#print axioms Bmc.Proofs.EndToEnd.generated_SensorReadingRsp_decodes
+#print axioms Bmc.Proofs.EndToEnd.generated_SensorInfoRsp_decodes
+#print axioms Bmc.Proofs.EndToEnd.generated_Cap1_decodes
+#print axioms Bmc.Proofs.EndToEnd.generated_Cap2_decodes
+#print axioms Bmc.Proofs.EndToEnd.generated_Cap3_decodes
+#print axioms Bmc.Proofs.EndToEnd.generated_Cap4_decodes
+#print axioms Bmc.Proofs.EndToEnd.generated_Cap5_decodes
+#print axioms Bmc.Proofs.EndToEnd.generated_OpenSessionRsp_decodes
+#print axioms Bmc.Proofs.EndToEnd.generated_RAKPMessage1_decodes
+#print axioms Bmc.Proofs.EndToEnd.generated_RAKPMessage2_decodes
+#print axioms Bmc.Proofs.EndToEnd.generated_RAKPMessage4_decodes
+#print axioms Bmc.Proofs.EndToEnd.generated_SessionSelector_decodes
+#print axioms Bmc.Proofs.EndToEnd.generated_V1Session_decodes
